@@ -3,3 +3,6 @@ NA = {}
 chk("C38", "exploration", "property-based testing: exhaustive enumeration of a small topology domain + rapid-generated larger topologies against a reference predicate",
     "Validate() is compared with a reference predicate transcribed from the statement on every topology of a bounded domain (complete enumeration) and on generated larger ones; a disagreement in either direction is a violation.",
     "Trusts the reference predicate's reading of the statement (duplicate region/peer ids are not defects). Exhaustive only inside the stated small domain.")
+chk("C35", "exploration", "property-based testing (rapid): generated sorted entry sets built with the production table builder, compared with a sorted reference slice (point lookups, both-direction seeks and iteration, before/after reopen)",
+    "Generated tables (1..120 entries, block sizes 128..8192, bloom on/off) are checked against a reference ordered slice: every stored key found, every seek (stored keys + neighbours) lands where the reference says in both directions, full iteration equals the input, again after reopening the file.",
+    "Explores random tables only; value sizes up to 20 KB; tables are built through a verif-tagged accessor that calls the production builder and openTable.")
